@@ -113,6 +113,8 @@ func New(maxConcurrent int, chQqueueSize int, v ...interface{}) *TaskPool {
 				if tp.fork(f) {
 					continue
 				}
+				// fork failed, give back what it added to the counter.
+				atomic.AddInt64(&tp.concurrent, -1)
 
 				if f != nil {
 					tp.caller(f)
